@@ -254,3 +254,19 @@ PROPS["C16"] = dict(
     floors={"quick": {"sequential_recvs_checked": 20000, "linearizability_checks": 500, "sends_with_bad_signature": 500, "byz_byz-future-votes": 1000, "snapshots_checked": 50000},
             "thorough": {"linearizability_checks": 10000}},
 )
+
+PROPS["C08"] = dict(
+    title="The block store is a verified, gap-free, append-only chain",
+    level="exploration",
+    technique="runtime monitoring: offline checker over the storage hand-off log + invariant and read-back probes running concurrently with a stress workload on the real EngineManager",
+    explanation="A certified chain of 110-260 blocks (with pre-genesis blocks, a second validly certified fork and 40 invalid variants: payload/hash mismatch, bad or sub-quorum "
+    "certificate, unknown epoch, pre-genesis number at/after the first block, wrong pre-genesis content) is offered by 4-12 concurrent submitters (in order, ahead, behind, "
+    "duplicated) to the real EngineManager/EngineManagerRunner over a harness EngineInterface whose persistence is immediate / stalled for whole phases (far beyond the 100-block "
+    "cache) / failing / jumping ahead through a side channel / pruned, over 2-4 manager incarnations per case, on current-thread and multi-thread runtimes. Checked: every block "
+    "handed to storage follows the previous hand-off or the durable head, is one of the verified blocks, one payload per number; persisted within queued, neither range shrinks; any "
+    "number inside the queued range reads back (same payload forever) unless pruned meanwhile; an invalid block is never acknowledged; the whole chain is durable at quiescence.",
+    assumptions=["the harness EngineInterface (storage) is the trusted base", "held on the generated interleavings only"],
+    stages=[dict(name="engine-stress", flavour="release", crate="eng")],
+    floors={"quick": {"queue_next_block_calls": 5000, "read_backs": 20000, "max_queued_minus_persisted": 101, "side_channel_jumps": 10, "prunes": 10, "storage_failures_injected": 10, "manager_incarnations": 100, "accepted_fork": 50},
+            "thorough": {"queue_next_block_calls": 100000, "max_queued_minus_persisted": 101}},
+)
